@@ -1,6 +1,7 @@
 """Path exploration of one structural shard: verdicts, models, observables."""
 from __future__ import annotations
 
+import os
 import time
 import z3
 
@@ -97,6 +98,9 @@ def explore(harness, *, pins=None, tier="quick", twin=False, max_paths=20000, ma
                 ctx.claims_evaluated = before
                 continue
             except Exception as e:      # the library raised something the harness does not expect
+                if os.environ.get("VERIF_TRACE"):
+                    import traceback
+                    traceback.print_exc()
                 m = ctx.model()
                 if m is not None:
                     ctx.claims_evaluated += 1
